@@ -289,7 +289,7 @@ def run_tlc(module, cfg, wd, trace=None, workers=1, cont=False, timeout=900, env
     if any("Postcondition" in x for x in r.errors):
         r.accepted = False
     fatal = [x for x in r.errors if not ("Invariant" in x and "violated" in x) and "Postcondition" not in x
-             and "behavior up to this point" not in x and "Action property" not in x and "Temporal properties were violated" not in x
+             and "behavior up to this point" not in x and "Action property" not in x and "Temporal properties were violated" not in x and not ("Temporal property" in x and "violated" in x)
              and "counter-example" not in x.lower()]
     if rc == 124:
         raise Broken("TLC timeout on %s/%s after %ss" % (module, cfg, timeout))
